@@ -185,6 +185,20 @@ func schemagenOnce(t reflect.Type) schemagenResult {
 		return res
 	}
 	res.Schema2 = projectLibSchema(s2)
+	// ... and from a typed nil pointer: the schema is a function of the type, there is nothing to dereference
+	var s3 avro.Schema
+	var err3 error
+	if p := catch(func() { s3, err3 = avro.SchemaForType(reflect.Zero(reflect.PointerTo(t)).Interface()) }); p != "" {
+		res.Outcome, res.Err = "panic", "typed nil pointer: "+p
+		return res
+	}
+	if err3 != nil {
+		res.Outcome, res.Err = "nondeterministic", "typed nil pointer: "+err3.Error()
+		return res
+	}
+	if s3n := projectLibSchema(s3); !reflect.DeepEqual(s3n, res.Schema2) {
+		res.Schema2 = s3n // the judge compares schema and schema2
+	}
 	return res
 }
 
@@ -358,6 +372,7 @@ func c15Registered(c *driverCtx) {
 	step("1-double", reg(`"double"`))
 	step("2-nullable", reg(`["null","double"]`))
 	step("3-string", reg(`"string"`))
+	step("4-null-second", reg(`["double","null"]`))
 }
 
 func driveC15(c *driverCtx) error {
